@@ -110,6 +110,27 @@ def expand(job):
         p = gen.rand_point(rnd, m, wide=False, whole=True, allow24=False, zones=[(0, 0), (0, 0), (1, 0), (-3, -30), (5, 30), (12, 45), (-11, 0)])
         p = dict(p, prec="hms", mi=max(p["mi"], 0), ss=max(p["ss"], 0))
         t = rand_trunc(rnd, m, p)
+        x = rnd.random()
+        if x < 0.06:
+            # p on the first days of an ISO week-year that begins in late December (or the last days of one that ends in early
+            # January), in calendar / ordinal form, with a weekday or week designator
+            wy = rnd.choice([2019, 2020, 2021, 2025, 2026, 2015, 2016, 1998, 2004, 2009])
+            n_ = R.week_year_start(m, wy) + rnd.choice([0, 0, 1, -1, -2, 6])
+            rep_ = rnd.choice(["cal", "ord", "cal", "week"])
+            yy_, a_, b_ = R.date_of(m, rep_, n_)
+            p = dict(p, rep=rep_, y=yy_, a=a_, b=b_)
+            t.update(dom=0, doy=0, dow=rnd.choice([1, 1, 2, 7]), woy=rnd.choice([0, 0, 1, 53, 52]))
+            if t["woy"] == 53 and m == "360day":
+                t["woy"] = 52
+        elif x < 0.10:
+            # day 366 (or 29 February) sought from the years before a century year that is not a leap year: the next one is 8 years on
+            yy_ = rnd.choice([2096, 2097, 2099, 2100, 1896, 1897, 1900, 2196])
+            n_ = R.year_start(m, yy_) + rnd.choice([0, 59, 200, R.diy(m, yy_) - 1])
+            rep_ = rnd.choice(["cal", "ord", "week"])
+            y2, a_, b_ = R.date_of(m, rep_, n_)
+            p = dict(p, rep=rep_, y=y2, a=a_, b=b_)
+            if rnd.random() < 0.7:
+                t.update(dom=0, doy=min(366, R.diy(m, 2000)), dow=0, woy=0)
         yield {"mode": sp, "t": t, "p": p, "order": rnd.choice(["t+p", "p+t"])}
 
 
